@@ -5,8 +5,10 @@ src/io.rs, src/async_io.rs) against spec/RepeWire.tla.
     (MC_RepeWire, ~12 000 vectors), each with the 48 header bytes the specification lays out;
     ASSUME LayoutProps checks decode . encode = id and the length equation on the spec itself.
  2. spec -> impl: every vector is emitted on every route (to_vec, write_to, into_wire_bytes in five
-    capacity relations, write_message, write_message_streaming, write_message_async) and compared
-    byte for byte with the specification's frame, then parsed back with all nine parsers/readers.
+    capacity relations, write_message, write_message_streaming, write_message_async, and the four
+    stream writers again through sinks that accept only 1 / 47 / 49 / 48+|query|+1 bytes per call) and compared
+    byte for byte with the specification's frame, then parsed back with all nine parsers/readers and
+    with the four stream readers fed 1 / 47 / 49 bytes per read call.
  3. impl -> spec: random full-range frames with payloads up to 64 KiB; TLC checks the emitted header
     bytes against HeaderBytes, the length equation, route equality, payload integrity, round trip.
 """
